@@ -1419,7 +1419,29 @@ class Executor:
         assert bb == 0 and stop == EXIT
         return self.run_body(fr, st)
 
-    def run_body(self, fr, st0, nomerge=False):
+    def run_loop_step(self, item, header, locals_, st):
+        """Cut-point execution: start at loop header block `header` of `item` with the given values for the MIR locals
+        (dict local number -> value; the loop-carried state, arbitrary / symbolic), run until control either comes back
+        to the header (one trip round the loop) or leaves the function.  Returns (frame, state_back_at_header or None,
+        state_at_exit or None); the frame's locals are still in the returned states' stores
+        (state.store[('L', frame.fid, n)])."""
+        fr = Frame(item, next(self.fid_counter))
+        self.functions_run[item.name] = item.text_hash
+        for n, v in locals_.items():
+            st.store[('L', fr.fid, n)] = v
+        self._stops = []
+        self.call_depth += 1
+        try:
+            res = self.run_body(fr, st, start=header, stop_at=header)
+        finally:
+            self.call_depth -= 1
+        stops, self._stops = self._stops, []
+        back = merge_arrivals(stops) if stops else None
+        if isinstance(res, list):
+            res = merge_arrivals(res) if res else None
+        return fr, back, res
+
+    def run_body(self, fr, st0, nomerge=False, start=None, stop_at=None):
         """Execute one function body.  The unrolled control-flow graph is walked in topological order
         (reverse post-order, loop iterations outermost first); all states that arrive at the same unrolled node are
         merged before the node is executed, so early returns / `?` / break / continue do not multiply paths."""
@@ -1465,6 +1487,9 @@ class Executor:
                             return
                         # value-partition tags are recomputed at the header; path-split markers (negative) stay, so that
                         # split paths remain apart until the loop is left
+                        if stop_at is not None and tgt == stop_at:
+                            self._stops.append(st)
+                            return
                         new.append((h, it + 1, tuple(x for x in tag if x <= -2)))
                         back = True
                         break
@@ -1475,7 +1500,15 @@ class Executor:
                 new.append((tgt, 0, ()))
             push(tgt, tuple(new), st)
 
-        push(0, ((0, 0, ()),) if 0 in body else (), st0)
+        if start is None:
+            push(0, ((0, 0, ()),) if 0 in body else (), st0)
+        else:
+            if start not in body:
+                raise Unsupported('run_loop_step: bb%d is not a loop header' % start)
+            outer = [h for h in body if h != start and start in body[h]]
+            if outer:
+                raise Unsupported('run_loop_step: nested loop headers are not supported')
+            push(start, ((start, 0, ()),), st0)
         final = None
         finals = []
         while heap:
